@@ -44,6 +44,23 @@ CAPACITY_ONLY = re.compile(r'^alloc::(vec::Vec|string::String)::<?.*>?::(push|pu
                            r'^core::iter::(traits::iterator::)?Iterator::(enumerate|sum|count|skip|map|collect|nth|cloned|step_by)$|^alloc::str::<impl str>::(replace|to_lowercase|to_uppercase|repeat)$|'
                            r'^alloc::vec::Vec::<.*>::(push|with_capacity|extend_from_slice|to_vec)$|^alloc::fmt::format$|^alloc::slice::<impl \[T\]>::to_vec$')
 
+# callees whose rustdoc mentions panicking only in an example, for arithmetic overflow of a collection index / length
+# (bounded by isize::MAX) or for a re-entrancy condition excluded elsewhere; one reason per alternative
+DOC_PANIC_BENIGN = re.compile(
+    r'chrono::Datelike>::(day|month|year)$'                      # doc examples use unwrap(); the accessor itself is total
+    r'|core::iter::Enumerate<.*> as core::iter::Iterator>::next$'   # index overflow only after usize::MAX items
+    r'|core::iter::(traits::iterator::)?Iterator::(enumerate|sum)$' # lazily built adaptor / sum of bounded lengths
+    r'|^regex::(regex::string::)?Regex::(captures|captures_iter|find|find_iter|is_match)$'  # panics only on internal bugs (documented as such)
+    r'|_serde::de::MapAccess::next_value$'                       # configuration loading, not evaluation
+    r'|core::cell::RefCell<.*> as core::clone::Clone>::clone$'   # covered by the refcell-free discipline (no RefMut is live across calls)
+)
+# std APIs that panic on a *value* (position not on a char boundary / out of range) even where the exporter could not read the docs
+VALUE_PANICS = re.compile(r'^core::str::<impl str>::(split_at|split_at_mut)$|^alloc::string::String::(insert|insert_str|remove|truncate|drain|split_off|replace_range)$|'
+                          r'^core::slice::<impl \[T\]>::(split_at|split_at_mut|swap|copy_from_slice|clone_from_slice|chunks|chunks_exact|windows|rotate_left|rotate_right|copy_within)$|'
+                          r'^alloc::vec::Vec::<.*>::(swap_remove|split_off|drain|splice|insert|remove)$|^core::char::methods::<impl char>::(from_digit|to_digit)$|'
+                          r'^core::num::<impl [iu]\w+>::(div_euclid|rem_euclid|pow|isqrt|ilog|ilog2|ilog10|abs_diff)$|^core::iter::(traits::iterator::)?Iterator::step_by$|'
+                          r'^alloc::collections::(vec_deque::)?VecDeque::<.*>::(swap|insert|remove|split_off|drain)$|^core::time::Duration::(from_secs_f64|from_secs_f32|new)$')
+
 DIVERGING_OK = re.compile(r'core::panicking::panic_nounwind|core::hint::unreachable_unchecked')
 
 
@@ -106,6 +123,13 @@ def enumerate_obligations(ctx, body):
                 continue
             kind = classify_callee(path)
             if kind is None:
+                # auto-classification of callees outside the frozen table: the callee's own rustdoc (read cross-crate
+                # by the exporter) or a frozen list of std slicing / splitting APIs says that it panics on some values
+                ext = ctx.facts.externs.get(path) or ctx.facts.externs.get(c.get('decl') or '') or {}
+                if CAPACITY_ONLY.search(path) or DOC_PANIC_BENIGN.search(path):
+                    continue
+                if ext.get('doc_panic') or VALUE_PANICS.search(path):
+                    out.append(Ob(body, bid, t, 'doc-panics', 'call to %s, whose documentation has a "Panics" clause' % short(path), path.rsplit('::', 1)[-1]))
                 continue
             if kind == 'to-string' and not any('DelayedFormat' in g for g in c.get('gen', [])):
                 continue      # Display of std / crate-local types does not return errors; only chrono's lazy formatter can
@@ -937,6 +961,9 @@ class Discharger:
         gen = ob.term['callee'].get('gen', [])
         if gen and re.search(r'(^|::)Utc$', gen[0]):
             return ('utc-zero-offset', 'naive_local()/date() of a DateTime<Utc> adds a zero offset')
+        return None
+
+    def d_doc_panics(self, ob):
         return None
 
     def d_chrono_from_utc(self, ob):
